@@ -14,6 +14,7 @@ import (
 
 	"github.com/openfga/openfga/internal/telemetry"
 	"github.com/openfga/openfga/internal/utils/apimethod"
+	"github.com/openfga/openfga/pkg/authclaims"
 	httpmiddleware "github.com/openfga/openfga/pkg/middleware/http"
 	"github.com/openfga/openfga/pkg/middleware/validator"
 	"github.com/openfga/openfga/pkg/server/commands"
@@ -128,6 +129,12 @@ func (s *Server) ListStores(ctx context.Context, req *openfgav1.ListStoresReques
 	storeIDs, err := s.getAccessibleStores(ctx)
 	if err != nil {
 		return nil, err
+	}
+
+	if len(storeIDs) == 0 && s.IsAccessControlEnabled() && !authclaims.SkipAuthzCheckFromContext(ctx) {
+		// The caller may list stores but is not allowed to get any of them. An empty list of IDs
+		// means "no filter" to the datastores, so it must not reach them.
+		return &openfgav1.ListStoresResponse{Stores: []*openfgav1.Store{}}, nil
 	}
 
 	// even though we have the list of store IDs, we need to call ListStoresQuery to fetch the entire metadata of the store.
